@@ -307,6 +307,182 @@ def gen_class(rng, receiver_names=0.0, class_types=0.0, type_first=0.0, **defkw)
     return "\n".join(lines) + "\n", tags
 
 
+# ------------------------------------------------------------------ definitions that SHARE a docstring text
+def _redraw_head(rng, head, mode, kinds=None):
+    """the header line `def name(...) -> r:` with the same parameter names in the same order, the rest of the signature
+    drawn anew.  mode: "stub" (annotations, every default is `...`), "bare" (no annotation, new default values),
+    "overload" (new annotations and new defaults), "version" (as overload, and the last parameter is dropped or a new last
+    parameter is added).  The first positional parameter is left alone when it is called self / cls."""
+    fd = ast.parse(head + "\n    pass\n").body[0]
+    a = fd.args
+    recv = 1 if a.args and a.args[0].arg in ("self", "cls") else 0
+    recv_default = recv and len(a.defaults) == len(a.args)
+
+    def expr(src):
+        return ast.parse(src, mode="eval").body
+
+    def new_default():
+        return ast.Constant(Ellipsis) if mode == "stub" else expr(gen_default(rng, kinds)[1])
+
+    def new_ann(old):
+        if mode == "bare":
+            return None
+        if mode == "stub":
+            return old if old is not None and rng.random() < 0.7 else expr(rng.choice(ANNS)) if rng.random() < 0.85 else None
+        return expr(rng.choice(ANNS)) if rng.random() < 0.45 else None
+
+    if mode == "version":
+        names = {x.arg for x in a.args + a.kwonlyargs} | ({a.kwarg.arg} if a.kwarg else set())
+        free = [n for n in ARG_NAMES if n not in names]
+        if (a.kwonlyargs or len(a.args) > recv) and rng.random() < 0.5:
+            if a.kwonlyargs:
+                a.kwonlyargs.pop()
+                a.kw_defaults.pop()
+            else:
+                a.args.pop()
+        elif free:
+            if a.kwonlyargs or rng.random() < 0.5:
+                a.kwonlyargs.append(ast.arg(rng.choice(free)))
+                a.kw_defaults.append(None)
+            else:
+                a.args.append(ast.arg(rng.choice(free)))
+    pos = a.args[recv:]
+    for x in pos + a.kwonlyargs:
+        x.annotation = new_ann(x.annotation)
+    ndef = len(pos) if recv_default else rng.randint(0, len(pos))
+    a.defaults = ([a.defaults[0]] if recv_default else []) + [new_default() for _ in range(ndef)]
+    a.kw_defaults = [new_default() if rng.random() < 0.6 else None for _ in a.kwonlyargs]
+    if mode != "bare" and rng.random() < 0.5:
+        r = rng.choice(RET_ANNS)
+        fd.returns = expr(r) if r else None
+    elif mode == "bare":
+        fd.returns = None
+    return ast.unparse(ast.fix_missing_locations(fd)).split("\n")[0]
+
+
+SHARED_MODES = ["stub", "bare", "overload", "overload", "version"]
+DOC_MODES = ["summary", "all", "all", "shuffled", "prefix", "some", "some", "extra", "google", "numpy"]
+
+
+def gen_def_variants(rng, k, safe=False, dmodes=None, **kw):
+    """k definitions whose docstring TEXT (and body) is byte-identical while their signatures differ: the first is an
+    ordinary gen_def definition with a docstring, the others keep its parameter names and redraw annotations, defaults and
+    (mode "version") the last parameter: a stub and its implementation, overloads, an old and a new version.
+    -> [(src, info)]; info["tags"] carries "shared-doc:<mode>"."""
+    dmodes = [d for d in (dmodes or DOC_MODES) if d != "none"] or DOC_MODES
+    for _ in range(50):
+        src, info = gen_def(rng, safe=safe, dmodes=dmodes, allow_vararg=False, **kw)
+        if _ok_source(src):
+            break
+    lines = src.split("\n")
+    out = [(src, dict(info, tags=info["tags"] + ["shared-doc:base"]))]
+    keep = [t for t in info["tags"] if t.startswith("doc")]
+    dk = ["lit", "lit", "cont", "pcode"] if safe else None
+    tries = 0
+    while len(out) < k and tries < 20 * k:
+        tries += 1
+        mode = rng.choice(SHARED_MODES)
+        try:
+            head = _redraw_head(rng, lines[0], mode, dk)
+        except (SyntaxError, ValueError):
+            continue
+        v = "\n".join([head] + lines[1:])
+        if not _ok_source(v) or any(v == s for s, _ in out):
+            continue
+        fd = ast.parse(v).body[0]
+        sig = [x.arg for x in fd.args.args + fd.args.kwonlyargs if x.arg not in ("self", "cls") or x is not fd.args.args[0]]
+        out.append((v, dict(info, sig_names=sig, tags=keep + ["shared-doc:" + mode])))
+    return out
+
+
+# ------------------------------------------------------------------ classes whose body mixes annotated and plain attributes
+# values that a class attribute may have in this stratum (the ones parse.class_ reports as Python evaluates them)
+ATTR_SCALARS = ["5", "0", "-1", "+3", "2.5", "-0.5", "1e-07", "'mnist'", "\"it's\"", "'say \"hi\"'", "'a.b'", "''", "None",
+                "True", "False", "'tab\\there'", "12345678901234567890", "3", "1.5", "'localhost'", "0.25"]
+ATTR_EMPTY = ["()", "[]", "{}"]
+ATTR_ANNS = ["int", "str", "float", "bool", "Optional[int]", "Optional[str]", "List[str]", "Literal['a', 'b']",
+             "Union[int, str]", "Dict[str, int]", "object"]
+ATTR_NAMES = ARG_NAMES + ["host", "retries", "timeout", "verbose", "backoff", "port"]
+
+
+def gen_attr_classes(rng, k=1, annotation_only=0.06, rebind=0.1, **defkw):
+    """k classes (k > 1: they share the class docstring text and the __init__ docstring text, everything else is drawn
+    anew) whose body mixes annotated attributes (`a: int = 1`) and plain assignments (`b = 2`), mostly alternating, of
+    which the class docstring documents none / a leading part / some / all (in or out of source order), with or without
+    an __init__ (whose parameters may or may not be attributes as well) and other methods between the attributes.
+    annotation_only: probability that an annotated attribute has no value; rebind: probability that one attribute is
+    bound a second time further down, in the other style.  -> [(src, tags)]"""
+    names = rng.sample(ATTR_NAMES, rng.randint(2, 6))
+    tags = ["attrs:%d" % len(names)]
+    dmode = rng.choice(["nodoc", "summary", "prefix", "prefix", "some", "some", "all", "shuffled", "extra"])
+    if dmode == "prefix":
+        dn = names[:rng.randint(1, len(names) - 1)]
+    elif dmode == "some":
+        dn = [n for n in names if rng.random() < 0.5]
+        if rng.random() < 0.3:
+            rng.shuffle(dn)
+    elif dmode in ("all", "shuffled", "extra"):
+        dn = list(names)
+        if dmode == "shuffled":
+            rng.shuffle(dn)
+        if dmode == "extra":
+            dn = [n for n in dn if rng.random() < 0.6]
+            dn.insert(rng.randint(0, len(dn)), "zz")
+    else:
+        dn = []
+    tags.append("class-doc:" + dmode)
+    doc = []
+    if dmode != "nodoc":
+        doc = ['    """', "    " + rng.choice(["Config class.", "Settings of a connection"]), ""]
+        for n in dn:
+            doc.append("    :cvar %s: %s" % (n, rng.choice(PROSE[:6])))
+            if rng.random() < 0.3:
+                doc.append("")
+        doc.append('    """')
+    inits = None
+    if rng.random() < 0.7:
+        inits = gen_def_variants(rng, k, kind=rng.choice(["self", "self", "self", "self", "static", "cls"]), name="__init__",
+                                 **defkw) if k > 1 else [gen_def(rng, kind=rng.choice(["self", "self", "self", "static", "cls"]),
+                                                                 name="__init__", allow_vararg=False, **defkw)]
+        if len(inits) < k:
+            inits = None
+    helper = gen_def(rng, kind="self", name="helper", allow_vararg=False)[0] if rng.random() < 0.3 else None
+    out = []
+    for j in range(k):
+        t = list(tags)
+        pat = rng.choice(["alternate", "alternate", "alternate", "random", "random", "annotated", "plain"])
+        first = rng.random() < 0.5
+        stmts = []
+        for i, n in enumerate(names):
+            ann = {"alternate": (i % 2 == 0) == first, "random": rng.random() < 0.5, "annotated": True, "plain": False}[pat]
+            if ann and annotation_only and rng.random() < annotation_only:
+                stmts.append("%s: %s" % (n, rng.choice(ATTR_ANNS)))
+                t.append("annotation-only")
+            elif ann:
+                stmts.append("%s: %s = %s" % (n, rng.choice(ATTR_ANNS), rng.choice(ATTR_SCALARS + ATTR_EMPTY)))
+            else:
+                stmts.append("%s = %s" % (n, rng.choice(ATTR_SCALARS + ATTR_SCALARS + ATTR_EMPTY + D_CONTAINER)))
+        t.append("attr-pattern:" + pat)
+        if rebind and rng.random() < rebind:
+            i = rng.randrange(len(names))
+            again = ("%s = %s" if ":" in stmts[i].split("=")[0] else "%s: " + rng.choice(ATTR_ANNS) + " = %s") % (
+                names[i], rng.choice(ATTR_SCALARS))
+            stmts.insert(rng.randint(i + 1, len(stmts)), again)
+            t.append("attr-rebound")
+        blocks = [[s] for s in stmts]
+        if inits is not None:
+            isrc, iinfo = inits[j]
+            blocks.insert(rng.choice([len(blocks), len(blocks), rng.randint(0, len(blocks))]), isrc.rstrip("\n").split("\n"))
+            t += ["init"] + iinfo["tags"]
+        if helper is not None:
+            blocks.insert(rng.randint(0, len(blocks)), helper.rstrip("\n").split("\n"))
+        lines = ["class C(object):"] + doc
+        for b in blocks:
+            lines += ["    " + l if l else "" for l in b]
+        out.append(("\n".join(lines) + "\n", t))
+    return out
+
+
 def _ok_source(src):
     try:
         ast.parse(src)
